@@ -50,6 +50,12 @@ func isSetTombstone(v value.Value) bool { return v == vm.DeletedHashSetValue }
 
 func (k *setKind) stateKey(o vm.HashSet) string {
 	var b strings.Builder
+	ent := func(v value.Value) string {
+		if ki := k.u.keyIdx(v); ki >= 0 {
+			return fmt.Sprintf("k%d", ki)
+		}
+		return safeInspect(v)
+	}
 	if t, el, occ, ok := setTable(o); ok {
 		fmt.Fprintf(&b, "%T %d/%d/%d:", o, el, occ, len(t))
 		for _, v := range t {
@@ -59,14 +65,14 @@ func (k *setKind) stateKey(o vm.HashSet) string {
 			case isSetTombstone(v):
 				b.WriteString("X,")
 			default:
-				b.WriteString(safeInspect(v) + ",")
+				b.WriteString(ent(v) + ",")
 			}
 		}
 		return b.String()
 	}
 	var ents []string
 	for v := range o.All() {
-		ents = append(ents, safeInspect(v))
+		ents = append(ents, ent(v))
 	}
 	sort.Strings(ents)
 	fmt.Fprintf(&b, "%T %d:%s", o, o.Length(), strings.Join(ents, ","))
